@@ -22,6 +22,12 @@ RULE = ('Cases = generated scene (layered, split_candidate, merge_chain, exact_c
         'crop happened, class, layer codes).')
 ASSUMPTIONS = ['crashes of the *plain* run are left to C08 (skipped here)']
 BUDGET = {'quick': 700, 'thorough': 12000}
+CORPUS = 'pipeline'
+
+
+def from_corpus(case):
+    return dict(case, variant={'index': 'nonunique', 'cols': ['type', 'height', 'dt', 'ceilo'], 'extra': ['const', 'slice_id'],
+                               'dtypes': {'ceilo': 'object', 'dt': 'float', 'height': 'float32', 'type': 'int8'}})
 WEIGHTS = {'layered': 8, 'split_candidate': 3, 'merge_chain': 2, 'exact_counts': 2, 'degenerate': 2, 'ref_window': 2}
 INDEX_KINDS = ['range', 'shuffled', 'shuffled', 'offset', 'float', 'string', 'nonunique', 'nonunique', 'nonunique',
                'allzero']
